@@ -768,7 +768,7 @@ STRUCT_PREDS = [
     ('names', 'fun r : row_t => res_eqb strset_eqb (Ok (op_names (r_op r))) (o_nm r)'),
     ('qmap', 'fun r : row_t => res_eqb op_eqb (Ok (t_qmap (zfun (p_g r)) (r_op r))) (t_q r)'),
     ('kmap', 'fun r : row_t => res_eqb op_eqb (Ok (kmap_top (p_m r) (r_op r))) (t_k r)'),
-    ('resolve', 'fun r : row_t => res_eqb op_eqb (Ok (t_resolve (p_p r) (r_op r))) (t_r r)'),
+    ('resolve', 'fun r : row_t => res_eqb op_eqb (Ok (if isnil (p_p r) then r_op r else t_resolve (p_p r) (r_op r))) (t_r r)'),
     ('rescope', 'fun r : row_t => res_eqb op_eqb (Ok (t_rescope kK kM (p_path r) (p_b r) (r_op r))) (t_s r)'),
     ('inv', 'fun r : row_t => res_eqb op_eqb (t_inv (r_op r)) (t_i r)'),
 ]
@@ -854,15 +854,26 @@ def sym_collision(D, extra_maps=()):
             for c in o['cs']:
                 if c[0] == 'sym' and len(c[2]) >= 2:
                     names = [k[1] for k in c[2]]
-                    for m in maps:      # innermost map first
-                        new = [m.get(x, x) for x in names]
+                    cur = list(names)
+                    for m in maps:      # innermost map first; the enclosing maps reach the condition composed into one dict
+                        new = [m.get(x, x) for x in cur]
+                        if any(new[i] != cur[i] and new[i] in cur for i in range(len(cur))):
+                            return True
                         if any(new[i] != names[i] and new[i] in names for i in range(len(names))):
                             return True
-                        names = new
+                        cur = new
             return False
         maps2 = ([dict(o['km'])] if o['km'] else []) + maps
         return any(walk(x, maps2) for m in o['c'] for x in m)
     return walk(D, [dict(m) for m in extra_maps if m])
+
+
+def f13_explains(ctx, cirq, V, D, results, extra_maps=()):
+    """An injective key map rejected with "Collision in measurement key map composition" while a sympy condition with
+    colliding images is present: the recorded defect F13."""
+    if any(r[0] == 'err' and 'Collision in measurement key map' in str(r[2:]) for r in results) and sym_collision(D, extra_maps):
+        return confirm_f13(ctx, cirq, V)
+    return False
 
 
 def confirm_f13(ctx, cirq, V):
@@ -982,15 +993,27 @@ def shrink(rec, fails, budget=400):
     return cur
 
 
+F18_SIG = 'F18:loop-carried-key:binding-depends-on-key-path'
+F18_WHAT = ('F18 in a loop without repetition ids whose body reads a key before measuring it (loop-carried classical '
+            'dependency), CircuitOperation rescopes ONE loop body and repeats it, so from the second iteration on the control '
+            'binds to the previous iteration\'s measurement only when the loop has no key path: giving the same loop a '
+            'parent_path / nesting it under repetition ids makes the control read the enclosing measurement instead; '
+            'unroll_circuit_op(deep=True) (inner loops first) and mapped_circuit(deep=True) then produce inequivalent circuits')
+
+
 F7_SIG = 'F7:zero-repetitions:keys-of-empty-unrolling'
 F7_WHAT = ('F7 a CircuitOperation with repetitions=0 still reports the measurement keys / control keys / is_measurement of '
            'its body, while its unrolled form (mapped_circuit, decompose, simulation) is empty')
 
 
-def unroll_defect(cirq, V, name, D):
-    """'' if the transformer agrees with mapped_circuit(deep=True) up to trace equivalence, else what goes wrong."""
+def unroll_defect(cirq, V, name, D, inner_first=False):
+    """'' if the transformer agrees with mapped_circuit(deep=True) up to trace equivalence, else what goes wrong.
+    inner_first: compare with unroll_circuit_op(deep=True) instead (used for the greedy variants when a loop-carried
+    key makes the two reference unrollings differ, F18)."""
     op = V.sub(D)
     flat = op.mapped_circuit(deep=True)
+    if inner_first:
+        flat = cirq.unroll_circuit_op(cirq.Circuit(op), deep=True, tags_to_check=None)
     r = attempt(lambda: getattr(cirq, name)(cirq.Circuit(op), deep=True, tags_to_check=None))
     if r[0] != 'ok':
         return 'raises-' + r[1]
@@ -1009,6 +1032,8 @@ def spec_struct(ctx, cirq, V, op, D, obs, do_unroll=True):
         def nondet(o):
             return o['t'] == 'sub' and (isinstance(o['reps'], tuple) or o['until'] is not None
                                         or any(nondet(x) for m in o['c'] for x in m))
+        if f13_explains(ctx, cirq, V, D, [obs['deep']]):
+            return
         if not (obs['deep'][1] == 'ValueError' and nondet(D)):
             ctx.violation('unroll:refused', f'mapped_circuit(deep=True) raised {obs["deep"][1:]} for a deterministic loop: {op!r}'[:1500],
                           dict(kind='struct', rec=D, which='deep'))
@@ -1037,9 +1062,16 @@ def spec_struct(ctx, cirq, V, op, D, obs, do_unroll=True):
     # S3: the transformer primitives
     if do_unroll:
         for name in ('unroll_circuit_op', 'unroll_circuit_op_greedy_earliest', 'unroll_circuit_op_greedy_frontier'):
-            kind = unroll_defect(cirq, V, name, D)
+            late = late_bound(cirq, flat)
+            kind = unroll_defect(cirq, V, name, D, inner_first=(late and name != 'unroll_circuit_op'))
+            if kind.startswith('reorders') and name == 'unroll_circuit_op' and late:
+                ctx.violation(F18_SIG, F18_WHAT + f' (unroll_circuit_op(deep=True) vs mapped_circuit(deep=True) of {op!r})'[:1500],
+                              dict(kind='unroll', rec=D, fn=name, defect=kind))
+                continue
             if kind:
-                small = D if seen(ctx, f'{name}:{kind}') else shrink(D, lambda x: unroll_defect(cirq, V, name, x) == kind, budget=150)
+                fails = lambda x: unroll_defect(cirq, V, name, x, inner_first=(name != 'unroll_circuit_op' and late_bound(
+                    cirq, V.sub(x).mapped_circuit(deep=True)))) == kind
+                small = D if seen(ctx, f'{name}:{kind}') else shrink(D, fails, budget=150)
                 ctx.violation(f'{name}:{kind}', f'{name}(deep=True) {kind} relative to mapped_circuit(deep=True); minimised input: '
                               f'{V.sub(small)!r}'[:1800], dict(kind='unroll', rec=small, fn=name, defect=kind))
     ctx.streams['spec:wrapped-vs-unrolled'] += 1
@@ -1073,8 +1105,10 @@ def spec_commute(ctx, cirq, V, op, D, g, m2, pm2, path, bind):
         if name == 'key-path-prefix' and not closed:
             continue
         if name == 'rescope' and late:
-            continue    # a control that is unbound where it stands but whose name is measured later (loop-carried key):
-                        # the single loop is scoped once, a flat circuit is scoped as straight-line code
+            a, b = attempt(lhs), attempt(rhs)
+            if not (a[0] == b[0] == 'ok' and a[1] == b[1]):
+                ctx.violation(F18_SIG, F18_WHAT + f' (rescope-then-unroll vs unroll-then-rescope of {op!r}, path {path}, bindable {bind})'[:1500], rep)
+            continue
         a, b = attempt(lhs), attempt(rhs)
         if a[0] != 'ok' and b[0] != 'ok':
             continue
@@ -1237,6 +1271,8 @@ def sim_stream(ctx, cirq, V, n):
         ok = a[0] == 'ok'
         ctx.count('sim:records' if ok else 'sim:both-raise', (prep, D, ctl), ok and len(a[1]) > 1,
                   sample=dict(op=repr(op)[:500], control=ctl, records=a[1] if ok else a[1:]))
+        if kind and f13_explains(ctx, cirq, V, D, [a, b]):
+            continue
         if kind:
             small = D if seen(ctx, f'sim:{kind}') else shrink(D, lambda x: sim_defect(cirq, V, prep, x, ctl)[0] == kind, budget=200)
             ctx.violation(f'sim:{kind}', f'{kind}: {a[1:]} vs {b[1:]}; minimised operation: {V.sub(small)!r}'[:1800] +
@@ -1387,7 +1423,7 @@ def scope_build(cirq, d):
     # expected value of `out`, from the meaning of the circuit
     b1 = b2 = 0
     last = int(v0)
-    same_key = not ids and 'parent_path' not in d['opts']     # the inner measurements append records to the enclosing key `a` itself
+    same_key = not ids     # without repetition ids every iteration measures the same key: a later iteration reads the previous one
     for _ in range(k):
         if kind == 'T1':
             b1 ^= int(v1)
@@ -1418,7 +1454,9 @@ def scope_stream(ctx, cirq, V, n):
             got[name] = r[1] if r[0] == 'ok' else r[1:]
         ctx.count('sim:scoping:' + kind, desc, True, sample=dict(case=desc, expected_out=want, got=got))
         for name, g in got.items():
-            if g != want:
+            if g != want and kind == 'T2' and not desc['ids'] and desc['k'] >= 2 and (desc['opts'].get('parent_path') or desc['nest']):
+                ctx.violation(F18_SIG, F18_WHAT + f' (template {desc}: `out` is {g}, expected {want})', dict(kind='scope', desc=desc, expected=want))
+            elif g != want:
                 ctx.violation(f'scoping:{kind}:{name}', f'scoping template {kind} {desc}: measurement `out` is {g} in the {name} circuit, '
                               f'the control must read {"the inner" if kind == "T1" else "the enclosing"} measurement of a: expected {want}\n{circuit}',
                               dict(kind='scope', desc=desc, expected=want))
@@ -1530,6 +1568,8 @@ def dist_stream(ctx, cirq, V, n):
         ctx.count('sim:distribution' if ok else 'sim:distribution-both-raise', D, ok and len(a[1]) >= 2,
                   sample=dict(op=repr(op)[:400], branches=len(a[1]) if ok else None,
                               distribution=({k[:80]: round(v, 6) for k, v in list(a[1].items())[:4]} if ok else a[1:])))
+        if kind and f13_explains(ctx, cirq, V, D, [a, b]):
+            continue
         if kind:
             small = D if seen(ctx, f'sim:{kind}') else shrink(D, lambda x: dist_defect(cirq, V, x)[0] == kind, budget=100)
             ctx.violation(f'sim:{kind}', f'{kind}: {str(a[1])[:400]} vs {str(b[1])[:400]}; minimised operation: {V.sub(small)!r}'[:1800],
